@@ -68,11 +68,23 @@ class _Build:
         self.o_bq, self.o_bs = qf.build_query, qf.build_source
         rec, o_bq, o_bs = self.rec, self.o_bq, self.o_bs
 
+        def base(s2):
+            return _build_update_bound(s2) if (s2.get("k") == "upd" and s2.get("set_tbl")) else o_bq(s2)
+
         def build_query(s):
-            if s.get("k") == "upd" and s.get("set_tbl"):
-                obj = _build_update_bound(s)
+            n = s.get("where_split")
+            if n and s.get("where") is not None and s.get("k") in ("sel", "upd", "del"):
+                # the WHERE is put together by successive .where() calls: the top-level AND chain, left to right
+                parts = unchain_and(s["where"], int(n))
+                s2 = dict(s)
+                s2["where"] = parts[0]
+                s2.pop("where_split")
+                obj = base(s2)
+                srcs = list(obj._from) + [j.item for j in obj._joins]
+                for it in parts[1:]:
+                    obj = qf._with_sources(srcs, lambda it=it, obj=obj: obj.where(qf.build_item(it)))
             else:
-                obj = o_bq(s)
+                obj = base(s)
             rec[id(s)] = obj
             return obj
 
@@ -94,6 +106,16 @@ class _Build:
 
     def __exit__(self, *a):
         qf.build_query, qf.build_source = self.o_bq, self.o_bs
+
+
+def unchain_and(w, n):
+    """the last n conjuncts of a left-nested item-level AND chain, split off: [rest, c1, ..., cn]"""
+    parts = []
+    while n > 0 and w[0] == "cplx" and w[1] == "and":
+        parts.insert(0, w[3])
+        w = w[2]
+        n -= 1
+    return [w] + parts
 
 
 def _build_update_bound(s):
@@ -307,7 +329,10 @@ def analyse(spec):
     for s, pos, parent in stmts:
         info[sid_of[id(s)]] = {"kind": s["k"], "pos": pos, "parent": None if parent is None else sid_of[id(parent)],
                                "nsrc": len(own_sources(s)) + (1 if s["k"] == "upd" else 0), "correlated": False,
-                               "corr_where": False}
+                               "corr_where": False,
+                               "setop_from": any(x[0] == "q" and x[1].get("k") == "set" for x in s.get("from", []) or []),
+                               "setop_join_unnamed": any(j[1][0] == "q" and j[1][1].get("k") == "set" and j[1][1].get("alias") is None
+                                                         for j in s.get("joins", []) or [])}
     refs = []
 
     def lookup(s, key):
@@ -555,6 +580,11 @@ class CGen(qf.QGen):
                 self.r.choice(["ta", "tb", "x", "t2"]) if self.r.random() < p else None]
 
     def source(self, cls, depth):
+        if depth < self.max_depth and self.r.random() < 0.06:
+            q = self.setop(self.cls(cls))             # an (un-)aliased set operation as a source
+            if self.r.random() < 0.3:
+                q["alias"] = self.r.choice(["so", "un1"])
+            return ["q", q]
         if depth < self.max_depth and self.r.random() < self.p_subq:
             q = self.select(self.cls(cls), depth + 1, small=True)
             r = self.r.random()
@@ -578,6 +608,9 @@ class CGen(qf.QGen):
                 q["joins"] = q["joins"] + [["inner", ["t", [t[0], list(t[1]), None]], ["on", ["t", ["basic", "eq", left, right, None]]]]]
                 n += 1
         self.correlate(q)
+        w = q.get("where")
+        if w is not None and w[0] == "cplx" and w[1] == "and" and self.r.random() < 0.5:
+            q["where_split"] = self.r.choice([1, 1, 2])
         return q
 
     def correlate(self, q):
@@ -621,8 +654,10 @@ class CGen(qf.QGen):
                     elif w[0] == "t" and ct[0] == "t" and self.r.random() < 0.5:
                         sub["where"] = ["t", ["cplx", "and", w[1], crit, None]]
                     else:
-                        op = self.r.choice(["and", "and", "or"])
-                        sub["where"] = ["cplx", op, w, ct] if self.r.random() < 0.6 else ["cplx", op, ct, w]
+                        op = self.r.choice(["and", "and", "and", "or"])
+                        sub["where"] = ["cplx", op, w, ct] if self.r.random() < 0.5 else ["cplx", op, ct, w]
+                        if op == "and" and self.r.random() < 0.7:
+                            sub["where_split"] = 1        # two .where() calls, the correlating one first or last
                 else:
                     pos = self.r.choice(["select", "having", "groupby", "orderby"])
                     if pos == "select" and sub["selects"] and sub["selects"][0][0] == "t" and sub["selects"][0][1][0] != "star":
@@ -867,7 +902,8 @@ def _hist_subq(k):
 
 
 def build_hist(evs):
-    """events: [op, kind, ...]: op 'from' | 'join'; kind 'table' alias | 'fresh' k | 'aliased' k alias | 'pretag' k n"""
+    """events: [op, kind, ...]: op 'from' | 'join'; kind 'table' alias | 'fresh' k | 'aliased' k alias | 'pretag' k n |
+    'setop' k alias-or-None (a UNION of two selects; k is ignored: a set operation has no counter)"""
     from pypika import Query, Table
     q = Query._builder()
     objs, given = [], []
@@ -876,6 +912,11 @@ def build_hist(evs):
         if kind == "table":
             o = Table("h%d" % n, alias=e[2])
             given.append(e[2])
+        elif kind == "setop":
+            o = Query.from_(Table("sa")).select("x") + Query.from_(Table("sb")).select("x")
+            if e[3] is not None:
+                o = o.as_(e[3])
+            given.append(o.alias)
         else:
             o = _hist_subq(int(e[2]))
             if kind == "aliased":
@@ -901,6 +942,10 @@ def gen_hist(rng):
         k = rng.choice([0, 0, 0, 1, 2, 3])
         if r < 0.2:
             evs.append([op, "table", rng.choice([None, None, "ta%d" % i])])
+        elif r < 0.32 and op == "from":
+            evs.append([op, "setop", 0, None])
+        elif r < 0.36:
+            evs.append([op, "setop", 0, "so%d" % i])
         elif r < 0.75:
             evs.append([op, "fresh", k])
         elif r < 0.9:
@@ -924,6 +969,7 @@ def gen_cases(rng, tier):
         out.append({"kind": "exec", "q": XGen(rng, p_bad=rng.choice([0.0, 0.2, 0.4])).stmt()})
     for i in range(n_hist):
         out.append(gen_hist(rng))
+    out += tclass_cases(rng, tier)
     # malformed stream: references to tables that are in no scope at all, joins whose criterion names an unknown table
     for i in range(20 if tier == "quick" else 200):
         g = CGen(rng, max_depth=1)
@@ -1008,6 +1054,48 @@ def _corpus_builtin():
     # name2 collides with a real table called t2
     out.append({"kind": "stmt", "q": sentinelise(sel("Query", [["t", T]], [["t", _f("a", s0)], ["t", _f("b", s1)], ["t", _f("c", s2)]],
                                                      joins=[["inner", ["t", ["t2", [], None]], on(1)], ["inner", ["t", T], on(2)]]))})
+    # ---- systematic small products (mechanism x statement kind x call sequence) ----
+    # auto-naming x kind of un-aliased source (select / set operation) x position in FROM
+    def mini(cls, t, col="a"):
+        return sel(cls, [["t", t]], [["t", _f(col, s0)]])
+
+    def union(cls):
+        return {"k": "set", "base": mini(cls, U), "ops": [["union", mini(cls, V)]]}
+    for cls in ("Query", "MySQLQuery"):
+        for srcs in ([["q", mini(cls, T)], ["q", union(cls)]], [["q", union(cls)], ["q", mini(cls, T)]],
+                     [["q", mini(cls, T)], ["q", mini(cls, U)], ["q", union(cls)]], [["t", T], ["q", mini(cls, U)], ["q", union(cls)]],
+                     [["q", union(cls)], ["q", union(cls)]]):
+            n_ = len(srcs)
+            out.append({"kind": "stmt", "q": sentinelise(sel(cls, copy.deepcopy(srcs), [["t", _f("a", ["#%d" % i, [], None])] for i in range(n_)]))})
+    # set-operation sources: a correlated WHERE over a set-operation FROM item; an un-aliased set operation joined
+    inner = sel("Query", [["q", union("Query")]], [["t", _f("a", s0)]], where=["t", ["basic", "eq", _f("a", s0), _f("x1", T), None]])
+    out.append({"kind": "stmt", "q": sentinelise(sel("Query", [["t", T]], [["t", _f("id", s0)]], where=["in", _f("a", s0), inner, False]))})
+    out.append({"kind": "stmt", "q": sentinelise(sel("Query", [["t", T]], [["t", _f("a", s0)], ["t", _f("a", s1)]],
+                                                     joins=[["inner", ["q", union("Query")], ["on", ["t", ["basic", "eq", _f("a", s0), _f("a", s1), None]]]]]))})
+    # the flag x several where() calls x position of the correlating call (WHERE built by 2-3 calls)
+    loc1 = ["t", ["basic", "gt", _f("c", s0), ["vali", 5, None], None]]
+    loc2 = ["t", ["basic", "ne", _f("b", s0), ["vali", 0, None], None]]
+    for cls, kind in (("Query", "stmt"), ("SQLLiteQuery", "exec")):
+        for order in (["corr", "loc1"], ["loc1", "corr"], ["corr", "loc1", "loc2"], ["loc1", "corr", "loc2"], ["loc1", "loc2", "corr"]):
+            corr = ["t", ["basic", "eq", _f("id", s0), _f("id", T), None]]
+            items = [copy.deepcopy({"corr": corr, "loc1": loc1, "loc2": loc2}[k_]) for k_ in order]
+            w = items[0]
+            for it in items[1:]:
+                w = ["cplx", "and", w, it]
+            inner = sel(cls, [["t", U]], [["t", ["func", "MAX", [_f("a", s0)], None]]], where=w, where_split=len(items) - 1)
+            q_ = sel(cls, [["t", T]], [["t", _f("id", s0)], ["sub", inner]])
+            out.append({"kind": kind, "q": q_ if kind == "exec" else sentinelise(q_)})
+    # the name2 auto-alias x statement kind: UPDATE target joined again (generic / MySQL / PostgreSQL), SELECT FROM item joined again
+    for cls in ("Query", "MySQLQuery", "PostgreSQLQuery"):
+        for sch in ([], ["s"]):
+            tt = ["node", list(sch), None]
+            out.append({"kind": "stmt", "q": sentinelise({
+                "k": "upd", "cls": cls, "table": list(tt), "set_tbl": True,
+                "joins": [["inner", ["t", list(tt)], ["on", ["t", ["basic", "eq", _f("parent", list(tt)), _f("id", s0), None]]]]],
+                "sets": [["depth", ["t", ["arith", "add", _f("depth", s0), ["vali", 1, None], None]]]],
+                "where": ["t", ["basic", "gte", _f("depth", s0), ["vali", 0, None], None]]})})
+            out.append({"kind": "stmt", "q": sentinelise(sel(cls, [["t", list(tt)]], [["t", _f("a", s0)], ["t", _f("b", s1)]],
+                                                             joins=[["left", ["t", list(tt)], ["on", ["t", ["basic", "eq", _f("parent", s0), _f("id", s1), None]]]]]))})
     # pinned shapes that must stay right
     x1, x2 = ["x", ["d", "s"], None], ["x", ["s2"], None]
     out.append({"kind": "stmt", "q": sentinelise(sel("Query", [["t", x1]], [["t", _f("a", s0)], ["t", _f("b", s1)]],
@@ -1055,6 +1143,8 @@ def _source_kind(src, user_alias):
 
 
 def run_impl(case):
+    if case["kind"] == "tclass":
+        return run_tclass(case)
     if case["kind"] == "hist":
         try:
             q, objs, given = build_hist(case["evs"])
@@ -1088,11 +1178,13 @@ def run_impl(case):
             names[str(sid)] = None
             continue
         ent = []
-        for src, so in zip(srcs, objs):
+        nfrom_ = len(getattr(o, "_from", []))
+        for k_, (src, so) in enumerate(zip(srcs, objs)):
             ua = src[1][2] if src[0] == "t" else (src[1].get("alias") if src[0] == "q" else src[1])
             al = getattr(so, "alias", None)
-            tn = getattr(so, "_table_name", None)
-            ent.append({"kind": _source_kind(src, ua), "user_alias": ua, "alias": al, "table": tn,
+            tn = so._table_name if src[0] == "t" else None
+            ent.append({"kind": _source_kind(src, ua), "user_alias": ua, "alias": al, "table": tn, "join": k_ >= nfrom_,
+                        "schema": list(src[1][1] or []) if src[0] == "t" else None,
                         "pretag": bool(src[0] == "q" and src[1].get("pretag") is not None)})
         names[str(sid)] = ent
         if s["k"] == "ins":
@@ -1102,7 +1194,7 @@ def run_impl(case):
         if s["k"] == "upd":
             ut = o._update_table
             names[str(sid) + ":target"] = {"kind": "aliased-table" if s["table"][2] else "table", "user_alias": s["table"][2],
-                                           "alias": ut.alias, "table": ut._table_name}
+                                           "alias": ut.alias, "table": ut._table_name, "schema": list(s["table"][1] or [])}
     out["names"] = names
     out["chains"] = sorted({tuple(list(src[1][1]) + [src[1][0]]) for s_, _, _ in stmts for src in own_sources(s_)
                             if src[0] == "t" and src[1][1]}
@@ -1126,13 +1218,17 @@ def run_impl(case):
 
 
 def to_coq(case, outcome):
+    if case["kind"] == "tclass":
+        return None            # oracle only: most of these term classes are outside the Gallina term language
     if case["kind"] == "hist":
         if outcome["text"].startswith("!"):
             return None
         evs = []
         for e, g in zip(case["evs"], outcome["given"]):
-            if e[1] == "table":
+            if e[1] == "table" or (e[1] == "setop" and e[0] == "join" and g is None):
                 evs.append("(EOther %s)" % OS(g))
+            elif e[1] == "setop" and e[0] == "from":
+                evs.append("(EFromQ %s %s)" % (OS(g), N(0)))
             elif e[0] == "from":
                 evs.append("(EFromQ %s %s)" % (OS(g), N(e[2])))
             else:
@@ -1149,6 +1245,11 @@ def to_coq(case, outcome):
             return "(CStmt %s %s [] [])" % (coq_query(coq_spec(case["q"], _TagDefault())), S(text))
         except Exception:  # noqa
             return None
+    for st in outcome["info"].values():
+        if st.get("setop_join_unnamed") or (st.get("setop_from") and st.get("correlated")):
+            return None        # set-operation sources: join() leaves them nameless / _validate_table never sees a foreign table
+    if any(r["bind"] == ["foreign"] and outcome["info"][str(r["sid"])].get("setop_from") for r in outcome["refs"]):
+        return None
     tagged = [s_ for s_, _, _ in all_statements(case["q"]) if s_.get("pretag") is not None]
     spec = coq_spec(case["q"], {id(s_): a for s_, a in zip(tagged, outcome.get("pretags", []))})
     # the sentinels of the TOP statement's own clauses in text order, with the clause the TEXT puts them in
@@ -1349,6 +1450,8 @@ def oracle(case, outcome):
         return oracle_term(case, outcome)
     if case["kind"] == "hist":
         return oracle_hist(case, outcome)
+    if case["kind"] == "tclass":
+        return oracle_tclass(case, outcome)
     viols = []
     names, info = outcome["names"], outcome["info"]
     byname = {}
@@ -1363,6 +1466,8 @@ def oracle(case, outcome):
         if exp is None:
             continue          # bound to nothing that is in scope (malformed stream): nothing to demand
         name, has_alias, kind = exp
+        if name is None:
+            continue          # the source has no in-statement name at all: reported once per statement below
         st = info[str(r["sid"])]
         multi = st["nsrc"] > 1 or st["correlated"]
         target = r["clause"] in ("set-target", "ins-column")
@@ -1373,7 +1478,8 @@ def oracle(case, outcome):
             why = "alias-dropped"
         elif qual is None and multi and not target:
             only_outside = st["nsrc"] <= 1 and st["correlated"] and not st["corr_where"]
-            why = "unqualified-correlated-outside-where" if only_outside else "unqualified"
+            why = "unqualified-correlated-outside-where" if only_outside else (
+                "unqualified-correlated-setop-source" if (st["nsrc"] <= 1 and st["correlated"] and st.get("setop_from")) else "unqualified")
         if why:
             # the correlated family has ONE cause (the flag is computed from WHERE only): the clause is not part of its signature
             viols.append({"signature": ["C10", "correlated-subquery" if why.startswith("unqualified-correlated") else r["clause"], kind, why],
@@ -1414,12 +1520,25 @@ def oracle(case, outcome):
     for sid, ent in names.items():
         if ent is None or sid.endswith(":target"):
             continue
+        if any(e["kind"] == "subquery" and not e["alias"] for e in ent):
+            viols.append({"signature": ["C10", "from/join", "subquery", "joined-set-operation-not-named"],
+                          "what": "statement #%s has an un-aliased set operation as a joined source that gets no name (its columns are "
+                                  "written \"None\".col): %r" % (sid, text[:300])})
         invented = [(e["alias"], e) for e in ent
                     if e["alias"] and ((e["kind"] == "subquery") or (e["kind"] == "table" and e["user_alias"] is None))]
         plain = [e["table"] for e in ent if e["kind"] == "table" and not e["alias"]]
         tgt = names.get(sid + ":target")
         if tgt is not None and not tgt["alias"]:
             plain.append(tgt["table"])
+        base = [(e["table"], e.get("schema")) for e in ent if not e.get("join") and e["kind"] == "table" and not e["alias"]]
+        if tgt is not None and not tgt["alias"] and tgt.get("schema") is not None:
+            base.append((tgt["table"], tgt["schema"]))
+        for e in ent:
+            # do_join's promise: an un-aliased joined table EQUAL to a base table (FROM item / UPDATE target) is renamed
+            if e.get("join") and e["kind"] == "table" and not e["alias"] and (e["table"], e.get("schema")) in base:
+                viols.append({"signature": ["C10", "from/join", "table", "joined-table-keeps-base-table-name"],
+                              "what": "statement #%s joins un-aliased table %r which is also a base table, under the same name: %r"
+                                      % (sid, e["table"], text[:300])})
         seen = {}
         for a, e in invented:
             if a in seen or a in plain:
@@ -1448,7 +1567,7 @@ def oracle_hist(case, outcome):
     """names of the sub-queries the user did not alias are pairwise distinct within the statement"""
     viols, seen = [], {}
     for e, a in zip(case["evs"], outcome["aliases"]):
-        if e[1] not in ("fresh", "pretag"):
+        if e[1] not in ("fresh", "pretag") and not (e[1] == "setop" and e[3] is None and e[0] == "from"):
             continue
         if a is None:
             viols.append({"signature": ["C10", "from/join", "subquery", "no-name"], "what": "un-aliased sub-query left without a name: %r" % outcome["text"][:300]})
@@ -1520,10 +1639,341 @@ def oracle_term(case, outcome):
     return _dedupe(viols)
 
 
+# ==============================================================================================
+# term classes x clauses x source shapes (oracle only: the qualifier token before every sentinel column)
+# ==============================================================================================
+# classes that cannot hold a bound Field (or are abstract / not rendered inside a clause); every other Term subclass found in
+# the sources must have a maker below, otherwise case generation fails (a new class is not silently forgotten)
+TCLASS_NO_FIELD = {
+    "Term": "abstract", "Criterion": "abstract", "RangeCriterion": "abstract", "_AbstractArrayFunction": "abstract",
+    "_AbstractSearchString": "abstract", "_AbstractMultiSearchString": "abstract",
+    "ValueWrapper": "constant", "SQLLiteValueWrapper": "constant", "ParameterValueWrapper": "constant", "LiteralValue": "raw text",
+    "NullValue": "constant", "SystemTimeValue": "constant", "JSON": "constant", "Index": "name only", "PseudoColumn": "name only",
+    "Parameter": "placeholder", "ListParameter": "placeholder", "DictParameter": "placeholder", "QmarkParameter": "placeholder",
+    "NumericParameter": "placeholder", "FormatParameter": "placeholder", "NamedParameter": "placeholder",
+    "PyformatParameter": "placeholder", "EmptyCriterion": "renders nothing", "Values": "table-less column by construction",
+    "Star": "no column name: covered by the star checks of the stmt cases", "Field": "the leaf itself (every case)",
+    "ExistsCriterion": "holds a sub-query (stmt cases)", "QueryBuilder": "statement (stmt cases)", "_SetOperation": "statement (stmt cases)",
+    "CurDate": "no argument", "CurTime": "no argument", "CurTimestamp": "no argument", "Now": "no argument", "UtcTimestamp": "no argument",
+    "Array@pypika.clickhouse.array": "python-value list rendered with str(): cannot hold a Field object meaningfully",
+}
+
+
+def term_classes():
+    """every Term subclass defined in pypika's own modules: {(name, module)}"""
+    import importlib
+    import inspect
+    import pkgutil
+    import pypika
+    from pypika.terms import Term
+    out = set()
+    for m in pkgutil.walk_packages(pypika.__path__, "pypika."):
+        if ".tests" in m.name:
+            continue
+        mod = importlib.import_module(m.name)
+        for n, c in vars(mod).items():
+            if inspect.isclass(c) and issubclass(c, Term) and c.__module__ == mod.__name__:
+                if n.endswith("QueryBuilder"):
+                    n = "QueryBuilder"
+                out.add((n, c.__module__))
+    return out
+
+
+def tclass_makers():
+    """{variant: (class name, module, maker)}; maker(F) builds the term, F() yields the next bound sentinel field"""
+    import pypika.analytics as an
+    import pypika.enums as E
+    import pypika.functions as fn
+    import pypika.terms as T
+    from pypika import Order, Interval
+    import pypika.clickhouse.array as cha
+    import pypika.clickhouse.condition as chc
+    import pypika.clickhouse.nullable_arg as chn
+    import pypika.clickhouse.search_string as chs
+    import pypika.clickhouse.type_conversion as cht
+    R = {}
+
+    def reg(variant, cls, mk):
+        R[variant] = (cls.__name__, cls.__module__, mk)
+    for c in (fn.Abs, fn.Ascii, fn.Avg, fn.Bin, fn.Count, fn.Date, fn.First, fn.Floor, fn.IsNull, fn.Last, fn.Length, fn.Lower,
+              fn.Max, fn.Min, fn.Reverse, fn.Signed, fn.Sqrt, fn.Std, fn.StdDev, fn.Sum, fn.Timestamp, fn.Trim, fn.Unsigned, fn.Upper,
+              cht.ToDate, cht.ToDateTime, cht.ToFloat32, cht.ToFloat64, cht.ToInt8, cht.ToInt16, cht.ToInt32, cht.ToInt64, cht.ToString,
+              cht.ToUInt8, cht.ToUInt16, cht.ToUInt32, cht.ToUInt64, cha.Empty, cha.NotEmpty, cha.Length):
+        reg(c.__module__.split(".")[-1] + "." + c.__name__, c, (lambda c_: lambda F: c_(F()))(c))
+    reg("functions.Count/distinct", fn.Count, lambda F: fn.Count(F()).distinct())
+    reg("functions.DistinctOptionFunction", fn.DistinctOptionFunction, lambda F: fn.DistinctOptionFunction("CNT", F()).distinct())
+    reg("functions.ApproximatePercentile", fn.ApproximatePercentile, lambda F: fn.ApproximatePercentile(F(), 0.5))
+    reg("functions.Cast", fn.Cast, lambda F: fn.Cast(F(), "INT"))
+    reg("functions.Coalesce", fn.Coalesce, lambda F: fn.Coalesce(F(), F(), 0))
+    reg("functions.Concat", fn.Concat, lambda F: fn.Concat(F(), "-", F()))
+    reg("functions.Convert", fn.Convert, lambda F: fn.Convert(F(), type("Enc", (), {"value": "utf8"})()))
+    reg("functions.DateAdd", fn.DateAdd, lambda F: fn.DateAdd("day", F(), F()))
+    reg("functions.DateDiff", fn.DateDiff, lambda F: fn.DateDiff("day", F(), F()))
+    reg("functions.Extract", fn.Extract, lambda F: fn.Extract(E.DatePart.year, F()))
+    reg("functions.IfNull", fn.IfNull, lambda F: fn.IfNull(F(), F()))
+    reg("functions.Insert", fn.Insert, lambda F: fn.Insert(F(), 1, 2, F()))
+    reg("functions.NVL", fn.NVL, lambda F: fn.NVL(F(), F()))
+    reg("functions.NullIf", fn.NullIf, lambda F: fn.NullIf(F(), F()))
+    reg("functions.RegexpLike", fn.RegexpLike, lambda F: fn.RegexpLike(F(), "^a"))
+    reg("functions.RegexpMatches", fn.RegexpMatches, lambda F: fn.RegexpMatches(F(), "^a"))
+    reg("functions.Replace", fn.Replace, lambda F: fn.Replace(F(), "a", F()))
+    reg("functions.SplitPart", fn.SplitPart, lambda F: fn.SplitPart(F(), ",", 1))
+    reg("functions.Substring", fn.Substring, lambda F: fn.Substring(F(), 1, 2))
+    reg("functions.TimeDiff", fn.TimeDiff, lambda F: fn.TimeDiff(F(), F()))
+    reg("functions.TimestampAdd", fn.TimestampAdd, lambda F: fn.TimestampAdd("day", F(), F()))
+    reg("functions.ToChar", fn.ToChar, lambda F: fn.ToChar(F(), "YYYY"))
+    reg("functions.ToDate", fn.ToDate, lambda F: fn.ToDate(F(), "YYYY"))
+    # analytics: plain, OVER, PARTITION BY, ORDER BY without / with direction, frames, IGNORE NULLS
+    one = (an.Avg, an.Count, an.Max, an.Median, an.Min, an.NTile, an.StdDev, an.StdDevPop, an.StdDevSamp, an.Sum, an.VarPop,
+           an.VarSamp, an.Variance, an.FirstValue, an.LastValue, an.Lag, an.Lead)
+    zero = (an.DenseRank, an.Rank, an.RowNumber)
+    for c in one + zero:
+        base = (lambda c_: (lambda F: c_(F())) if c_ in one else (lambda F: c_()))(c)
+        nm = "analytics." + c.__name__
+        reg(nm + "/over", c, (lambda b: lambda F: b(F).over(F()))(base))
+        reg(nm + "/orderby", c, (lambda b: lambda F: b(F).over(F()).orderby(F()))(base))
+        reg(nm + "/orderby-asc", c, (lambda b: lambda F: b(F).over(F()).orderby(F(), order=Order.asc))(base))
+        reg(nm + "/orderby-desc", c, (lambda b: lambda F: b(F).orderby(F(), F(), order=Order.desc))(base))
+        if issubclass(c, T.WindowFrameAnalyticFunction):
+            reg(nm + "/rows", c, (lambda b: lambda F: b(F).over(F()).orderby(F(), order=Order.desc).rows(an.Preceding(1), an.CURRENT_ROW))(base))
+            reg(nm + "/range", c, (lambda b: lambda F: b(F).orderby(F()).range(an.Preceding(), an.Following(2)))(base))
+        if issubclass(c, T.IgnoreNullsAnalyticFunction):
+            reg(nm + "/ignore-nulls", c, (lambda b: lambda F: b(F).ignore_nulls().over(F()).orderby(F(), order=Order.desc))(base))
+    reg("terms.AnalyticFunction", T.AnalyticFunction, lambda F: T.AnalyticFunction("AN", F()).over(F()).orderby(F(), order=Order.desc))
+    reg("terms.WindowFrameAnalyticFunction", T.WindowFrameAnalyticFunction,
+        lambda F: T.WindowFrameAnalyticFunction("WF", F()).over(F()).orderby(F(), order=Order.asc).rows(an.Preceding(1)))
+    reg("terms.IgnoreNullsAnalyticFunction", T.IgnoreNullsAnalyticFunction,
+        lambda F: T.IgnoreNullsAnalyticFunction("IG", F()).ignore_nulls().over(F()).orderby(F(), order=Order.desc))
+    reg("terms.AggregateFunction", T.AggregateFunction, lambda F: T.AggregateFunction("AGG", F(), F()))
+    reg("terms.AggregateFunction/filter", T.AggregateFunction, lambda F: T.AggregateFunction("AGG", F()).filter(F() == 1, F() > F()))
+    reg("functions.Sum/filter", fn.Sum, lambda F: fn.Sum(F()).filter(F().isnull()))
+    reg("terms.Function", T.Function, lambda F: T.Function("F", F(), 1, F()))
+    reg("terms.Function/nested", T.Function, lambda F: T.Function("F", T.Function("G", F() + F()), T.Case().when(F() == 1, F()).else_(F())))
+    reg("terms.All", T.All, lambda F: T.All(F()))
+    for op in ("add", "sub", "mul", "div", "lshift", "rshift"):
+        reg("terms.ArithmeticExpression/" + op, T.ArithmeticExpression,
+            (lambda o: lambda F: T.ArithmeticExpression(getattr(E.Arithmetic, o), F(), F()))(op))
+    reg("terms.ArithmeticExpression/interval", T.ArithmeticExpression, lambda F: F() + Interval(days=1))
+    reg("terms.ArithmeticExpression/nested", T.ArithmeticExpression, lambda F: (F() + F()) * (F() - 1) / F())
+    reg("terms.Array", T.Array, lambda F: T.Array(F(), F()))
+    reg("terms.Tuple", T.Tuple, lambda F: T.Tuple(F(), 1, F()))
+    reg("terms.Bracket", T.Bracket, lambda F: T.Bracket(F() + F()))
+    reg("terms.AtTimezone", T.AtTimezone, lambda F: T.AtTimezone(F(), "UTC"))
+    reg("terms.AtTimezone/interval", T.AtTimezone, lambda F: T.AtTimezone(F(), "-06:00", interval=True))
+    for cmpn in ("eq", "ne", "gt", "gte", "lt", "lte"):
+        reg("terms.BasicCriterion/" + cmpn, T.BasicCriterion, (lambda o: lambda F: T.BasicCriterion(getattr(E.Equality, o), F(), F()))(cmpn))
+    for m_ in ("like", "not_like", "ilike", "not_ilike", "rlike", "regex", "regexp", "glob"):
+        if hasattr(T.Field, m_):
+            reg("terms.BasicCriterion/" + m_, T.BasicCriterion, (lambda o: lambda F: getattr(F(), o)("a%"))(m_))
+    for j_ in ("get_json_value", "get_text_value", "get_path_json_value", "get_path_text_value", "has_key", "contains", "contained_by",
+               "has_keys", "has_any_keys"):
+        if hasattr(T.Field, j_):
+            arg = {"has_keys": ["a"], "has_any_keys": ["a"], "contains": {"a": 1}, "contained_by": {"a": 1}}.get(j_, "k")
+            reg("terms.BasicCriterion/json-" + j_, T.BasicCriterion, (lambda o, a: lambda F: getattr(F(), o)(a))(j_, arg))
+    reg("terms.BasicCriterion/as_of", T.BasicCriterion, lambda F: F().as_of("x"))
+    reg("terms.BetweenCriterion", T.BetweenCriterion, lambda F: T.BetweenCriterion(F(), F(), F()))
+    reg("terms.BetweenCriterion/slice", T.BetweenCriterion, lambda F: F()[1:5])
+    reg("terms.PeriodCriterion", T.PeriodCriterion, lambda F: T.PeriodCriterion(F(), F(), F()))
+    reg("terms.BitwiseAndCriterion", T.BitwiseAndCriterion, lambda F: F().bitwiseand(2))
+    reg("terms.Case", T.Case, lambda F: T.Case().when(F() == 1, F()).when(F() > F(), 2).else_(F()))
+    reg("terms.Case/no-else", T.Case, lambda F: T.Case().when(F().isnull(), F()))
+    for b in ("and_", "or_", "xor_"):
+        reg("terms.ComplexCriterion/" + b, T.ComplexCriterion,
+            (lambda o: lambda F: T.ComplexCriterion(getattr(E.Boolean, o), F() == 1, T.ComplexCriterion(E.Boolean.or_, F() > 2, F().isnull())))(b))
+    reg("terms.ContainsCriterion", T.ContainsCriterion, lambda F: F().isin([1, 2]))
+    reg("terms.ContainsCriterion/fields", T.ContainsCriterion, lambda F: T.ContainsCriterion(F(), T.Tuple(F(), F())))
+    reg("terms.ContainsCriterion/negated", T.ContainsCriterion, lambda F: F().notin([1, 2]))
+    reg("terms.Mod", T.Mod, lambda F: T.Mod(F(), 2))
+    reg("terms.Mod/operator", T.Mod, lambda F: F() % F())
+    reg("terms.Pow", T.Pow, lambda F: T.Pow(F(), 2))
+    reg("terms.Pow/operator", T.Pow, lambda F: F() ** 2)
+    reg("terms.Negative", T.Negative, lambda F: -F())
+    reg("terms.Negative/compound", T.Negative, lambda F: -(F() + F()))
+    reg("terms.NestedCriterion", T.NestedCriterion,
+        lambda F: T.NestedCriterion(E.Equality.eq, E.Boolean.and_, F(), F(), F() == 1))
+    reg("terms.Not", T.Not, lambda F: T.Not(F() == F()))
+    reg("terms.Not/negate", T.Not, lambda F: (F() > 1).negate())
+    reg("terms.NullCriterion", T.NullCriterion, lambda F: F().isnull())
+    reg("terms.NotNullCriterion", T.NotNullCriterion, lambda F: F().notnull())
+    reg("terms.Rollup", T.Rollup, lambda F: T.Rollup(F(), F()))
+    # ClickHouse
+    reg("clickhouse.HasAny", cha.HasAny, lambda F: cha.HasAny(F(), F()))
+    reg("clickhouse.If", chc.If, lambda F: chc.If(F() == 1, F(), F()))
+    reg("clickhouse.MultiIf", chc.MultiIf, lambda F: chc.MultiIf(F() == 1, F(), F() > 2, F(), F()))
+    reg("clickhouse.IfNull", chn.IfNull, lambda F: chn.IfNull(F(), F()))
+    for c in (chs.Like, chs.Match, chs.NotLike):
+        reg("clickhouse." + c.__name__, c, (lambda c_: lambda F: c_(F(), "pat"))(c))
+    for c in (chs.MultiMatchAny, chs.MultiSearchAny):
+        reg("clickhouse." + c.__name__, c, (lambda c_: lambda F: c_(F(), ["p1", "p2"]))(c))
+    reg("clickhouse.ToFixedString", cht.ToFixedString, lambda F: cht.ToFixedString(F(), 10))
+    return R
+
+
+def tclass_coverage():
+    """(classes neither made nor excused, variants)"""
+    makers = tclass_makers()
+    made = {(c, m) for c, m, _ in makers.values()}
+    missing = []
+    for n, m in sorted(term_classes()):
+        if (n, m) in made or n in TCLASS_NO_FIELD or (n + "@" + m) in TCLASS_NO_FIELD:
+            continue
+        missing.append(n + "@" + m)
+    return missing, makers
+
+
+TC_SHAPES = ["join", "from2", "alias-join", "alias1", "subq", "single", "upd-from"]
+TC_CLAUSES = ["select", "where", "having", "groupby", "orderby", "on", "set-value"]
+
+
+def tclass_cases(rng, tier):
+    missing, makers = tclass_coverage()
+    if missing:
+        raise RuntimeError("Term subclasses without a C10 term-class case (add a maker or an exclusion with its reason): %s" % missing)
+    out = []
+    for v in sorted(makers):
+        for shape in TC_SHAPES:
+            for clause in TC_CLAUSES:
+                if clause == "on" and shape not in ("join", "alias-join"):
+                    continue
+                if (clause == "set-value") != (shape == "upd-from") and not (shape == "upd-from" and clause == "where"):
+                    continue
+                if v == "terms.Rollup" and clause != "groupby":
+                    continue
+                cls = "ClickHouseQuery" if v.startswith("clickhouse.") or v.startswith("type_conversion.") or v.startswith("array.") else \
+                    rng.choice(["Query", "Query", "PostgreSQLQuery", "MySQLQuery", "OracleQuery"])
+                if shape == "upd-from" and cls in ("ClickHouseQuery",):
+                    cls = "Query"
+                if v == "terms.NestedCriterion":
+                    cls = "Query"      # (prints no blanks around its connective: only tokenisable with quoted identifiers)
+                out.append({"kind": "tclass", "variant": v, "shape": shape, "clause": clause, "cls": cls})
+    if tier == "quick":      # the full product is cheap (no Coq): keep everything but thin the very regular one-argument families
+        keep = []
+        for c in out:
+            regular = c["variant"].split(".")[0] in ("functions", "type_conversion") and "/" not in c["variant"]
+            if regular and rng.random() < 0.6:
+                continue
+            keep.append(c)
+        out = keep
+    return out
+
+
+def build_tclass(case):
+    """-> (statement object, {sentinel: (expected in-statement name, has alias, kind)}, multi)"""
+    from pypika import Table
+    from pypika.terms import Field
+    Q = qf.qclass(case["cls"])
+    shape, clause = case["shape"], case["clause"]
+    a, b = Table("ta1"), Table("tb2")
+    exp = {}
+    n = [0]
+    if shape in ("join", "from2", "upd-from"):
+        srcs = [(a, "ta1", False, "table"), (b, "tb2", False, "table")]
+    elif shape == "alias-join":
+        a = Table("ta1").as_("x")
+        srcs = [(a, "x", True, "aliased-table"), (b, "tb2", False, "table")]
+    elif shape == "alias1":
+        a = Table("ta1", schema="s").as_("x")
+        srcs = [(a, "x", True, "aliased-table")]
+    elif shape == "single":
+        srcs = [(a, "ta1", False, "table")]
+    elif shape == "subq":
+        a = Q.from_(Table("inner1")).select("c1", "c2")
+        srcs = [(a, None, True, "subquery"), (b, "tb2", False, "table")]
+    else:
+        raise ValueError(shape)
+
+    def F():
+        n[0] += 1
+        src = srcs[(n[0] - 1) % len(srcs)]
+        name = "zq%d" % n[0]
+        exp[name] = src
+        return Field(name, table=src[0])
+    term = tclass_makers()[case["variant"]][2](F)
+    owner = type(term).get_sql.__qualname__.split(".")[0] + "@" + type(term).get_sql.__module__
+    build_tclass.owner = owner
+    multi = len(srcs) > 1
+    if shape == "upd-from":
+        q = Q.update(a).from_(b)
+        q = q.set(Field("tgt", table=a), term if clause == "set-value" else 1)
+        if clause == "where":
+            q = q.where(term)
+        return q, exp, True
+    if shape == "join" or shape == "alias-join":
+        j = Q.from_(a).join(b)
+        q = j.on(term) if clause == "on" else j.on(Field("k", table=a) == Field("k", table=b))
+    elif shape in ("from2", "subq"):
+        q = Q.from_(a).from_(b)
+    else:
+        q = Q.from_(a)
+    if clause == "select":
+        q = q.select(term)
+    else:
+        q = q.select(Field("plain", table=srcs[0][0]))
+        if clause == "where":
+            q = q.where(term)
+        elif clause == "having":
+            q = q.having(term)
+        elif clause == "groupby":
+            q = q.groupby(term)
+        elif clause == "orderby":
+            q = q.orderby(term)
+    return q, exp, multi
+
+
+def run_tclass(case):
+    try:
+        q, exp, multi = build_tclass(case)
+        text = str(q)
+    except Exception as e:  # noqa
+        return {"text": "!" + type(e).__name__ + ": " + str(e)[:120]}
+    names = {}
+    for k, (obj, nm, has_alias, kind) in exp.items():
+        names[k] = [getattr(obj, "alias", None) or getattr(obj, "_table_name", None), bool(getattr(obj, "alias", None)), kind]
+    return {"text": text, "obs": observe(text), "exp": names, "multi": multi, "owner": build_tclass.owner}
+
+
+def _tclass_sig(outcome, why):
+    """the class whose get_sql renders the term + the reason; the ClickHouse renderers that ignore the keyword arguments
+    altogether (one cause per renderer) are not split by reason"""
+    owner = outcome.get("owner", "?")
+    if owner.split("@")[-1].startswith("pypika.clickhouse"):
+        why = "keyword-arguments-ignored"
+    return ["C10", "term-class", owner, why]
+
+
+def oracle_tclass(case, outcome):
+    viols = []
+    seen = set()
+    for n, qual in outcome["obs"]:
+        e = outcome["exp"].get(n)
+        if e is None:
+            continue
+        seen.add(n)
+        name, has_alias, kind = e
+        why = None
+        if qual is not None and qual != name:
+            why = "wrong-qualifier"
+        elif qual is None and has_alias:
+            why = "alias-dropped"
+        elif qual is None and outcome["multi"]:
+            why = "unqualified"
+        if why:
+            viols.append({"signature": _tclass_sig(outcome, why),
+                          "what": "%s in %s / %s: reference %s bound to %r written with qualifier %r in %r"
+                                  % (case["variant"], case["shape"], case["clause"], n, name, qual, outcome["text"][:300])})
+    lost = sorted(set(outcome["exp"]) - seen)
+    if lost and not outcome["text"].startswith("!"):
+        viols.append({"signature": _tclass_sig(outcome, "reference-not-rendered"),
+                      "what": "%s: bound columns %s do not appear as column tokens in %r" % (case["variant"], lost, outcome["text"][:300])})
+    return _dedupe(viols)
+
+
 # ----------------------------------------------------------------------------------------------
 # evidence helpers
 # ----------------------------------------------------------------------------------------------
 def nontrivial_key(case):
+    if case["kind"] == "tclass":
+        return json.dumps([case["variant"], case["shape"], case["clause"]]) if case["shape"] != "single" else None
     if case["kind"] == "hist":
         return json.dumps(case["evs"]) if sum(1 for e in case["evs"] if e[1] != "table") >= 2 else None
     if case["kind"] == "term":
@@ -1552,6 +2002,10 @@ def histogram(cases):
         h[k] = h.get(k, 0) + n
     for c in cases:
         inc("kind=" + c["kind"])
+        if c["kind"] == "tclass":
+            inc("tclass-shape:" + c["shape"])
+            inc("tclass-clause:" + c["clause"])
+            continue
         if c["kind"] == "hist":
             for e in c["evs"]:
                 inc("hist:%s-%s" % (e[0], e[1]))
